@@ -34,6 +34,32 @@ type Ctx struct {
 
 func NewCtx(p *prog.Program, tier string) *Ctx {
 	fieldAlias = p.FieldRenames()
+	// package-level variables assigned only by their initialiser: every load yields the same value
+	writtenGlobals = map[*ssa.Global]bool{}
+	for _, f := range p.Funcs {
+		if f.Name() == "init" && f.Parent() == nil {
+			continue
+		}
+		for _, b := range f.Blocks {
+			for _, in := range b.Instrs {
+				switch x := in.(type) {
+				case *ssa.Store:
+					if g, ok := x.Addr.(*ssa.Global); ok {
+						writtenGlobals[g] = true
+					}
+				default:
+					// the address of the variable taken as a value (passed, stored): anything may write it
+					for _, op := range in.Operands(nil) {
+						if g, ok := (*op).(*ssa.Global); ok {
+							if ld, isLoad := in.(*ssa.UnOp); !isLoad || ld.X != ssa.Value(g) {
+								writtenGlobals[g] = true
+							}
+						}
+					}
+				}
+			}
+		}
+	}
 	return &Ctx{P: p, Tier: tier, reach: map[string]*prog.Reach{}, dyn: newDynTyper(p), Stats: map[string]int{}, joinCache: map[*ssa.Function]bool{}}
 }
 
